@@ -448,7 +448,8 @@ func (c *compiler) compile(tok *token) []instruction {
 			}
 			if len(values) > 0 && len(target.Tokens) > 0 {
 				typ := typeFromToken(c, target.Tokens[0])
-				if slices.Contains([]Type{TypeUint8, TypeInt8, TypeInt32, TypeUint32, TypeFloat64}, typ) {
+				if slices.Contains([]Type{TypeUint8, TypeInt8, TypeInt32, TypeUint32, TypeFloat64}, typ) || typ >= nillableMin {
+					// (a nil initialiser becomes a nil of the declared slice, map, reference or function type)
 					res = append(res, instruction{Code: codeCast, A: reg(typ)})
 				}
 			}
